@@ -6,7 +6,8 @@ using namespace nix;
 
 namespace sim {
 
-static const char *kUnits[] = {"ms", "s", "mV", "Hz", "kHz", "uA"};
+static const char *kUnits[] = {"ms", "s", "mV", "Hz", "kHz", "uA", "mV/s", "m/s^2", "N*m", "kg*m^2/s^2"};     // atomic and compound SI units
+static const char *pick_unit(sim::Rng &r) { return kUnits[r.chance(1, 4) ? 6 + r.below(4) : r.below(6)]; }
 
 static std::vector<double> gen_ticks(Rng &r, int variant, bool &sorted) {
     std::vector<double> t;
@@ -73,7 +74,7 @@ int World::exec_dims(const Op &op) {
             double iv = ivs[r.below(6)];
             if (variant == 1) { iv = 0.0; arg_class += ",interval=0"; } else if (variant == 2) { iv = -1.5; arg_class += ",interval<0"; }
             std::string label = r.chance(1, 2) ? "" : "time";
-            std::string unit = r.chance(1, 2) ? "" : kUnits[r.below(4)];
+            std::string unit = r.chance(1, 2) ? "" : pick_unit(r);
             if (variant == 3) { unit = "foo"; arg_class += ",non-si-unit"; }
             double off = r.chance(1, 2) ? 0.0 : (double) r.range(-2, 6) * 0.5;
             try { x.appendSampledDimension(iv, label, unit, off); }
@@ -85,7 +86,7 @@ int World::exec_dims(const Op &op) {
             std::vector<double> t = gen_ticks(r, variant, sorted);
             if (variant == 1 && !sorted) arg_class += ",unsorted-ticks"; else if (variant == 2) arg_class += ",empty-ticks";
             std::string label = r.chance(1, 2) ? "" : "pos";
-            std::string unit = r.chance(1, 2) ? "" : kUnits[r.below(4)];
+            std::string unit = r.chance(1, 2) ? "" : pick_unit(r);
             if (variant == 3) { unit = "foo"; arg_class += ",non-si-unit"; }
             try { x.appendRangeDimension(t, label, unit); }
             catch (const std::exception &) { return 1; }
@@ -146,7 +147,7 @@ int World::exec_dims(const Op &op) {
                     arg_class += ",unit";
                     if (variant == 0) { s.unit(nix::none); if (dm) dm->has_unit = false; }
                     else if (variant == 1) { arg_class += ",non-si"; s.unit(std::string("foo")); if (dm) { dm->has_unit = true; dm->unit = "foo"; } }
-                    else { std::string u = kUnits[r.below(4)]; s.unit(u); if (dm) { dm->has_unit = true; dm->unit = u; } }
+                    else { std::string u = pick_unit(r); s.unit(u); if (dm) { dm->has_unit = true; dm->unit = u; } }
                 } else if (attr == 2) {
                     arg_class += ",interval";
                     double iv = (double) r.range(1, 40) * 0.25;
@@ -170,7 +171,7 @@ int World::exec_dims(const Op &op) {
                     arg_class += ",unit";
                     if (variant == 0) { rd.unit(nix::none); if (dm && !alias) dm->has_unit = false; }
                     else if (variant == 1) { arg_class += ",non-si"; rd.unit(std::string("foo")); if (dm && !alias) { dm->has_unit = true; dm->unit = "foo"; } }
-                    else { std::string u = kUnits[r.below(4)]; rd.unit(u); if (dm && !alias) { dm->has_unit = true; dm->unit = u; } }
+                    else { std::string u = pick_unit(r); rd.unit(u); if (dm && !alias) { dm->has_unit = true; dm->unit = u; } }
                 } else {
                     arg_class += ",ticks";
                     bool sorted;
